@@ -210,7 +210,7 @@ class Driver:
 
 
 # ------------------------------------------------------------------------------------------ E part
-ALPHA = [0, 1, -1, 2, 1.5, "a", "b", None, True]
+ALPHA = [0, 1, -1, 2, 1.5, -1.5, "a", "b", None, True]      # 1.5 / -1.5: a value and its negation (a sign-blind element hash)
 
 
 def unit_changes(unit):
@@ -219,7 +219,8 @@ def unit_changes(unit):
     agg = Agg()
 
     def h(x):
-        return Vector._hash_element(x)
+        # "other than pairs Python's own hash() cannot tell apart": Python's hash, NOT the implementation's element hash
+        return ("none",) if x is None else hash(x)
 
     for rest in itertools.product(ALPHA, repeat=n - 1):
         vals = [first] + list(rest)
@@ -812,7 +813,7 @@ def check(ctx):
     ND = ctx.pick(4, 6)
     for p in core.pmap(unit_nested, [("nested", ev, ND) for ev in NESTED_EVENTS]):
         agg.merge(p)
-    agg.notes["bound"] = f"H: depth<={depth} events after the seed; E: vectors of length<={N} over 9 values; nested vectors: every history of <={ND} events over {len(NESTED_EVENTS)}; every result of the derivation catalogue taken from operands with a cached fingerprint"
+    agg.notes["bound"] = f"H: depth<={depth} events after the seed; E: vectors of length<={N} over 10 values; nested vectors: every history of <={ND} events over {len(NESTED_EVENTS)}; every result of the derivation catalogue taken from operands with a cached fingerprint"
     return agg
 
 
